@@ -22,6 +22,7 @@
 import PysamlModel.Proofs.C12Emit
 import PysamlModel.Proofs.C12Parse
 import PysamlModel.Gen.ClassTable
+import PysamlModel.Gen.ClassRows
 
 set_option linter.unusedSimpArgs false
 set_option linter.unusedVariables false
@@ -125,6 +126,24 @@ theorem C12_table_wf : TableWf theTable := by
   exact ⟨hc.1, hc.2⟩
 
 theorem C12_av_consts_ok : avConstsOk Gen.ClassTable.avConsts = true := by decide +kernel
+
+/-! ## the order the class tables prescribe follows the XSD sequences
+
+    `C12_roundtrip`/`C12_schema_order` are relative to the class table: "schema order" there is what
+    `c_child_order` says.  That `c_child_order` itself follows the XSD is the obligation below, over tables
+    regenerated on every run from the shipped XSD files and from the class tables by C13's translators
+    (`harness/translate/schema.py`, `classrows.py` → `Gen/Schema.lean`, `Gen/ClassRows.lean`; model
+    `Model/ClassOrder.lean`; all three used read-only — the statement is `C13_order_table`, re-checked here so
+    that a class table whose child order leaves its XSD sequence breaks an obligation of C12 as well). -/
+
+open Validate in
+/-- For every element class of saml / samlp / md / xmldsig / xmlenc whose content model is a plain sequence
+    (the rows C13 claims; 26 classes with choice content are listed in `Gen.ClassRows.excluded`): the row's
+    particles ARE the content model of the element in the regenerated schema, and the members in
+    `_get_all_c_children_with_order` order follow that sequence within its occurrence bounds. -/
+theorem C12_order_follows_xsd :
+    Gen.ClassRows.rows.all (fun r => particlesOf Gen.Schema.schema r.elem r.ps && orderCompat r.ps r.members) = true := by
+  decide +kernel
 
 /-! ## serialise → wire → parse -/
 
